@@ -84,36 +84,81 @@ def case_fn(case):
     tag = '%s/%s' % (case['kind'], 'ktables' if isk else 'xsec')
     r.eq(grid, WN, 'native-grid', 'grid/' + tag, rtol=0)
     r.check(len(T) == N and len(dz) == N, 'layer-count', 'layers')
-    dtau = np.zeros((N, len(wn)))
-    dtau_g = None
+    # optical thickness per source and per component: {source name: {component: (dtau, dtau_g)}}
+    parts = {}
     for c in m.contribution_list:
         nm = type(c).__name__
+        comp = parts.setdefault(c.name, {})
         if nm == 'AbsorptionContribution':
-            if isk:
-                dtau_g = np.zeros((N, len(wn), len(GW)))
             for mol in m.chemistry.activeGases:
                 chi = np.asarray(m.chemistry.get_gas_mix_profile(mol), float)
+                a = np.zeros((N, len(wn), len(GW))) if isk else np.zeros((N, len(wn)))
                 for k in range(N):
-                    s = opac.interp_opacity(tabs[mol], TG, PG, T[k], P[k], 'linear') * chi[k] * dens[k] * dz[k]
-                    if isk:
-                        dtau_g[k] += s
-                    else:
-                        dtau[k] += s
+                    a[k] += opac.interp_opacity(tabs[mol], TG, PG, T[k], P[k], 'linear') * chi[k] * dens[k] * dz[k]
+                comp[mol] = (None, a) if isk else (a, None)
         elif nm == 'CIAContribution':
             chi = np.asarray(m.chemistry.get_gas_mix_profile('H2'), float) * \
                 np.asarray(m.chemistry.get_gas_mix_profile('He'), float)
+            a = np.zeros((N, len(wn)))
             for k in range(N):
-                dtau[k] += fx.cia_ref(cia, CIA_T, T[k]) * chi[k] * dens[k] ** 2 * dz[k]
+                a[k] += fx.cia_ref(cia, CIA_T, T[k]) * chi[k] * dens[k] ** 2 * dz[k]
+            comp['H2-He'] = (a, None)
         elif nm == 'RayleighContribution':
             for g in list(m.chemistry.activeGases) + list(m.chemistry.inactiveGases):
                 s = rayleigh_sigma_from_name(g, wn)
                 if s is not None:
                     chi = np.asarray(m.chemistry.get_gas_mix_profile(g), float)
-                    dtau += s[None, :] * (chi * dens * dz)[:, None]
+                    comp[g] = (s[None, :] * (chi * dens * dz)[:, None], None)
+
+    def total(items):
+        a = np.zeros((N, len(wn)))
+        ag = None
+        for x, xg in items:
+            if x is not None:
+                a = a + x
+            if xg is not None:
+                ag = xg if ag is None else ag + xg
+        return a, ag
+    dtau, dtau_g = total([v for comp in parts.values() for v in comp.values()])
     mus, wts = rt.gauss_nodes(case['ngauss'])
     F, I, L = rt.emission(wn, T, dtau, mus, wts, dtau_g, GW if isk else None)
     Rp = m.planet.fullRadius
     Rs = m.star.radius
+
+    def percontrib(scale):
+        # every source alone, and every component of every source alone, is the same integral over that source only
+        _, cd = m.model_contrib()
+        r.check(sorted(cd) == sorted(parts), 'contrib-names', 'contrib-names/' + tag, got=sorted(cd),
+                want=sorted(parts))
+        for name, comp in parts.items():
+            if name not in cd:
+                continue
+            a, ag = total(list(comp.values()))
+            Fc, _, Lc = rt.emission(wn, T, a, mus, wts, ag, GW if ag is not None else None)
+            got = np.asarray(cd[name][0], float)
+            r.check(bool(np.all(np.abs(got - Fc * scale) <= Lc * scale + 1e-9 * np.abs(Fc * scale))),
+                    'source-alone-spectrum', 'alone/%s/%s' % (tag, name), got=got, want=Fc * scale)
+        _, fd = m.model_full_contrib()
+        for name, comp in parts.items():
+            if name not in fd:
+                r.check(False, 'full-contrib-names', 'full-names/' + tag, missing=name)
+                continue
+            got_c = dict((x[0], np.asarray(x[1], float)) for x in fd[name])
+            r.check(sorted(got_c) == sorted(comp), 'component-names', 'component-names/%s/%s' % (tag, name),
+                    got=sorted(got_c), want=sorted(comp))
+            for cn, (a, ag) in comp.items():
+                if cn not in got_c:
+                    continue
+                a_ = a if a is not None else np.zeros((N, len(wn)))
+                Fc, _, Lc = rt.emission(wn, T, a_, mus, wts, ag, GW if ag is not None else None)
+                r.check(bool(np.all(np.abs(got_c[cn] - Fc * scale) <= Lc * scale + 1e-9 * np.abs(Fc * scale))),
+                        'component-alone-spectrum', 'component/%s/%s' % (tag, name), component=cn, got=got_c[cn],
+                        want=Fc * scale)
+        # the evaluation entry points leave nothing behind: the full model is repeatable afterwards
+        _, again, _, _ = m.model()
+        r.eq(np.asarray(again, float), spectrum, 'model-repeatable-after-contrib-calls', 'repeat/' + tag, rtol=0,
+             atol=0)
+
     if case['kind'] == 'emission':
         scale = (Rp / Rs) ** 2 / rt.planck_pi(wn, case['starT'])
         want = F * scale
@@ -133,6 +178,7 @@ def case_fn(case):
         Fi = 2.0 * math.pi * np.sum(np.asarray(Ii) * (np.asarray(iw) / np.asarray(imu)), axis=0)
         r.check(bool(np.all(np.abs(Fi - F) <= L + 1e-9 * np.abs(F))), 'partial-model', 'partial/' + tag,
                 got=Fi, want=F)
+        percontrib(scale)
     else:
         d = case['distance'] * 3.08567758e16
         with np.errstate(all='ignore'):
@@ -140,6 +186,8 @@ def case_fn(case):
         relL = L / np.maximum(F, 1e-300)
         ok = np.all(np.abs(K - 0.5) <= 0.5 * (relL + 1e-9)) or np.all(np.abs(K - 1.0) <= relL + 1e-9)
         r.check(bool(ok), 'direct-image-scaling', 'directimage/scale/' + tag, K=K, got=spectrum, F=F)
+        if ok:
+            percontrib((0.5 if np.all(np.abs(K - 0.5) <= 0.5 * (relL + 1e-9)) else 1.0) * Rp ** 2 / d ** 2)
     inter = (dtau + (dtau_g.min(axis=-1) if dtau_g is not None else 0.0))
     if not np.all(T == T[0]) and np.any((inter > 1e-6) & (inter < 10)):
         r.nontrivial = True
@@ -153,6 +201,8 @@ def case_fn(case):
 HIST_ALPHABET = [['T', 700.0], ['T', 1900.0], ['planet_radius', 0.7], ['planet_radius', 1.4], ['planet_mass', 0.5],
                  ['H2O', 1e-6], ['H2O', 1e-2], ['He_H2', 0.6], ['atm_max_pressure', 1e5], ['atm_min_pressure', 1e1],
                  ['star_temperature', 3500.0], ['star_temperature', 7000.0], ['star_radius', 4e8]]
+# requested spectral windows of equal length at both ends of the native grid, and the full grid again
+HIST_ALPHABET += [['__window__', [1000.0, 2000.0]], ['__window__', [3000.0, 4000.0]], ['__window__', None]]
 HIST_REDUCED = [['T', 700.0], ['T', 1900.0], ['star_temperature', 3500.0], ['H2O', 1e-2], ['atm_max_pressure', 1e5]]
 
 
